@@ -747,7 +747,7 @@ func (p *linkTailParser) parseCharRef() string {
 
 func isASCIILetter(b byte) bool { return ('a' <= b && b <= 'z') || ('A' <= b && b <= 'Z') }
 
-func isASCIIControl(b byte) bool { return b < 0x20 }
+func isASCIIControl(b byte) bool { return b < 0x20 || b == 0x7f }
 
 const asciiPuncts = "!\"#$%&'()*+,-./:;<=>?@[\\]^_`{|}~"
 
